@@ -33,6 +33,8 @@ CLAIMED = {
              note='Trusted: HashMap lookup shim, String equality axiom; termination of filter not proved (cyclic fragments are rejected by validation, unverified). Not covered: SelectionFieldsIter (context.rs), resolved argument values, @skip/@include pruning (C01 kernel, not composed).'),
  'C29': dict(engine='verus', tech=TECH_V + '; bounded history stand-in for the async DataLoader API (labelled bounded, never counted)', text='Kernel contracts only: get/insert/remove/clear of HashMapCacheImpl, LruCacheImpl and NoCacheImpl are proved against an abstract map view stated over the whole map (LRU: hit refreshes recency, insert at capacity evicts exactly the least recently used). The async DataLoader operations are only exercised on bounded single-threaded histories.',
              note='Trusted: std HashMap and lru::LruCache shims with their documented semantics; K = V = u64 instantiation. Not covered: DataLoader::{load_many, feed_many, enable_cache, ...} (async, scc::HashMap, dyn Any) beyond the bounded histories; interleavings (C28).'),
+ 'C31': dict(engine='verus', tech=TECH_V + ' (await-erased); bounded history stand-in (labelled bounded, never counted)', text='Kernel contract only: the persisted-queries prepare_request (await-erased) is proved to hand on a parsed document only if it is the stored document for the given hash (empty query) or the parse of the sent query whose SHA-256 equals the hash; every rejection leaves the store unchanged; the invariant "every stored document is the parse of a text with that hash" is preserved by the call, hence holds after every history.',
+             note='Trusted: await-erasure, identity continuation, storage modelled as a map with eviction, SHA-256 and parse_query uninterpreted, from_value opaque. Not covered: that execute uses parsed_query (schema.rs::prepare_request, async); LruCacheStorage itself.'),
  'C32': dict(engine='verus', tech=TECH_V + ' (await-erased); bounded stand-in for the cursor codecs (labelled bounded, never counted)', text='Kernel contract only: connection::query_with (await-erased) is proved to return a validation error for a negative first/last, a decode error for an undecodable cursor, and otherwise exactly the result of the user function applied to the decoded cursors and the losslessly cast first/last.',
              note='Trusted: await-erasure; user callback and CursorType::decode_cursor abstract; error values reduced to their origin. Not covered: cursor.rs codecs (std FromStr/Display, base64+serde), page_info, Edge/Connection assembly.'),
  'C33': dict(engine='verus', tech=TECH_V, text='Kernel contracts only: TypeRef::is_subtype equals the spec\'s IsValidImplementationFieldType (named types identical), is_nullable/type_name/typeref_nonnullable_name against their definitions, for all type-reference trees.',
